@@ -187,6 +187,27 @@ func runC17Arg(c *Ctx) {
 						}
 					}
 				}
+				if !found {
+					// the statement was moved into a helper of the validator: the character is the one every call site has
+					// established by look-ahead
+					sites := globCallSites(p, name)
+					all := len(sites) > 0
+					for _, st := range sites {
+						ok := false
+						for _, cv := range lookaheadChars(info, st) {
+							if tv.Value != nil && constant.Compare(cv, token.EQL, tv.Value) {
+								ok = true
+							}
+						}
+						if !ok {
+							all = false
+						}
+					}
+					if all {
+						c.ok(construct, call.Pos(), fmt.Sprintf("names %s, the character established by look-ahead at each of the %d call sites of this helper", a.Value, len(sites)))
+						return true
+					}
+				}
 				if found {
 					c.ok(construct, call.Pos(), "names the character of the enclosing case "+a.Value)
 				} else {
@@ -265,6 +286,27 @@ func runC17Consume(c *Ctx) {
 						c.ok(construct, pos, "the character is known from the look-ahead test")
 						return true
 					}
+				}
+			}
+			// (2'') in a helper of the validator all of whose call sites have fixed the character by look-ahead
+			if sites := globCallSites(p, name); len(sites) > 0 {
+				all := true
+				for _, st := range sites {
+					if len(lookaheadChars(info, st)) == 0 {
+						all = false
+					}
+				}
+				// and nothing is consumed in the helper before this call
+				first := true
+				ast.Inspect(d.Body, func(m ast.Node) bool {
+					if e, ok := m.(ast.Expr); ok && isScanCall(e, "Next") && m.Pos() < n.Pos() {
+						first = false
+					}
+					return true
+				})
+				if all && first {
+					c.ok(construct, pos, fmt.Sprintf("the character is known from the look-ahead at each of the %d call sites of this helper", len(sites)))
+					return true
 				}
 			}
 			// the statement containing the call and its block
@@ -467,4 +509,76 @@ func runC17Term(c *Ctx) {
 	} else {
 		c.bad("(*globValidator).validateNext|class loop consumes", vn.Pos(), "the [...] loop does not consume a character per iteration")
 	}
+}
+
+// lookaheadChars: the constant characters that the enclosing statements of a node have established for the next character:
+// the labels of an enclosing case clause of `switch X.scan.Peek()`, and the literals of enclosing `if ... X.scan.Peek() == lit`
+// tests (the condition or one of its conjuncts).
+func lookaheadChars(info *types.Info, stack []ast.Node) []constant.Value {
+	var out []constant.Value
+	for i := len(stack) - 1; i >= 0; i-- {
+		switch s := stack[i].(type) {
+		case *ast.CaseClause:
+			if i >= 2 {
+				if sw, ok := stack[i-2].(*ast.SwitchStmt); ok && sw.Tag != nil && isScanCall(sw.Tag, "Peek") {
+					for _, e := range s.List {
+						if tv := info.Types[e]; tv.Value != nil {
+							out = append(out, tv.Value)
+						}
+					}
+				}
+			}
+		case *ast.IfStmt:
+			if i+1 < len(stack) && stack[i+1] != ast.Node(s.Body) {
+				continue // the node is in the condition or the else branch
+			}
+			conj := []ast.Expr{s.Cond}
+			for k := 0; k < len(conj); k++ {
+				if be, ok := ast.Unparen(conj[k]).(*ast.BinaryExpr); ok && be.Op == token.LAND {
+					conj = append(conj, be.X, be.Y)
+				}
+			}
+			for _, cj := range conj {
+				if be, ok := ast.Unparen(cj).(*ast.BinaryExpr); ok && be.Op == token.EQL && isScanCall(be.X, "Peek") {
+					if tv := info.Types[be.Y]; tv.Value != nil {
+						out = append(out, tv.Value)
+					}
+				}
+			}
+		}
+	}
+	return out
+}
+
+// globCallSites: for a method of the glob validator, the syntactic context (stack of enclosing nodes) of each of its calls
+// from the validator's other methods.
+func globCallSites(p *Prog, name string) [][]ast.Node {
+	i := strings.LastIndex(name, ".")
+	if i < 0 {
+		return nil
+	}
+	method := name[i+1:]
+	var out [][]ast.Node
+	for other, d := range globDecls(p) {
+		if other == name {
+			continue
+		}
+		var stack []ast.Node
+		ast.Inspect(d.Body, func(n ast.Node) bool {
+			if n == nil {
+				stack = stack[:len(stack)-1]
+				return true
+			}
+			stack = append(stack, n)
+			if call, ok := n.(*ast.CallExpr); ok {
+				if sel, ok := call.Fun.(*ast.SelectorExpr); ok && sel.Sel.Name == method {
+					if _, isIdent := sel.X.(*ast.Ident); isIdent {
+						out = append(out, append([]ast.Node(nil), stack...))
+					}
+				}
+			}
+			return true
+		})
+	}
+	return out
 }
